@@ -1,5 +1,6 @@
 import BitcaskVerif.Props.C10
 import BitcaskVerif.Props.C06Bytes
+import BitcaskVerif.Props.C10Utf8
 #print axioms Resp.c10_outcome
 #print axioms Resp.c10_read_total
 #print axioms Resp.c10_store
@@ -11,3 +12,33 @@ import BitcaskVerif.Props.C06Bytes
 #print axioms Resp.c10_bytes_serve
 #print axioms Resp.c10_bytes_store
 #print axioms Resp.c10_bytes_store_writes
+-- what the key validator accepts: exactly the UTF-8 encodings of sequences of Unicode scalar values (Props/C10Utf8.lean)
+#print axioms Resp.validUtf8_complete
+#print axioms Resp.validUtf8_sound
+#print axioms Resp.validUtf8_iff
+#print axioms Resp.validUtf8_cons_decode
+#print axioms Resp.utf8_decode_unique
+#print axioms Resp.validUtf8_first_byte
+#print axioms Resp.validUtf8_append
+#print axioms Resp.validUtf8_append_iff
+#print axioms Resp.validUtf8_ascii
+#print axioms Resp.validUtf8_singleton
+#print axioms Resp.reject_lone_cont_80
+#print axioms Resp.reject_lone_cont_BF
+#print axioms Resp.reject_overlong2
+#print axioms Resp.reject_overlong3
+#print axioms Resp.reject_overlong4
+#print axioms Resp.reject_surrogate
+#print axioms Resp.reject_above_max
+#print axioms Resp.reject_F5_FF
+#print axioms Resp.reject_k_cont
+#print axioms Resp.reject_truncated
+#print axioms Resp.accept_e_acute
+#print axioms Resp.accept_nichi
+#print axioms Resp.accept_grinning
+#print axioms Resp.encodeCp_extremes
+#print axioms Resp.isScalar_iff_validChar
+#print axioms Resp.encodeCp_char
+#print axioms Resp.encodeCp_singleton
+#print axioms Resp.validUtf8_string
+#print axioms Resp.validUtf8_is_string
